@@ -27,7 +27,7 @@ def main() -> None:
             caught = ('undecided (exit 2) by ' + ', '.join(und)) if und else '**missed**'
         elif not own:
             caught += ' - not by its own check' + (f' (which is undecided)' if m['property'] in und else '')
-        rnd = {'a': 1, 'b': 1, 'c': 2, 'd': 2, 'e': 5, 'f': 5, 'g': 6, 'h': 7}.get(m['id'][-1], 0)
+        rnd = {'a': 1, 'b': 1, 'c': 2, 'd': 2, 'e': 5, 'f': 5, 'g': 6, 'h': 7, 'i': 8}.get(m['id'][-1], 0)
         stats.setdefault(rnd, [0, 0, 0, 0, 0])
         stats[rnd][0] += 1
         stats[rnd][1] += own
@@ -40,7 +40,7 @@ def main() -> None:
     text = f"""{MARK}
 
 {len(rows)} changes written by independent sub-agents (property text + scratch worktree only), each confirmed by me in a scratch
-worktree (demo passes clean / fails patched, whole suite still green). Rounds 1-2 are small subtle edits; rounds 5-7 are
+worktree (demo passes clean / fails patched, whole suite still green). Rounds 1-2 are small subtle edits; rounds 5-8 are
 refactoring commits (10-50 changed lines, new helpers / records / tables) with one wrong detail, whose repaired twins are in
 `/verif/refactors`. {ncaught} are reported as a VIOLATION by at least one check. Regenerate with `/venv/bin/python -m sa.seedtable`
 after `tools/refresh_meta.py`.
